@@ -54,6 +54,12 @@ def span_cases():
     for q in (14, 15, 16, 17, 254, 255, 256, 257, 4094, 4095, 4096, 4097):
         out.append(('ring', q, 'C1' + 'C' * q + 'C1'))
         out.append(('branch', q, 'C(' + 'C' * (q + 1) + ')C'))
+    # ring closures carrying '/' '\\' marks at one or both ends, at every index length (1, 2 and 3 index symbols)
+    for q in (3, 14, 15, 16, 17, 254, 255, 256, 257, 300, 1000):
+        for lm in ('', '/', '\\'):
+            for rm in ('', '/', '\\'):
+                if lm or rm:
+                    out.append(('stereo-ring', q, 'F/C=C%s1' % lm + 'C' * q + '%s1=C/F' % rm))
     return out
 
 
